@@ -23,12 +23,18 @@ def _cfg_for(name):
         a = pl.ADAPTERS[name]
         out = []
         ns = [3] if tier == "quick" else [3, 4]
+        slow = getattr(a, "slow", False)
+        heavy = slow or name.startswith("QueryByCommittee[v") or name in ("BatchBALD", "GreedyBALD", "TypiClust")
         for n in ns:
             for mode in ("none", "idx", "rows"):
                 if mode == "rows" and not a.supports_rows:
                     continue
                 for b in ([1, 2, 4] if tier == "quick" else [1, 2, 3, n + 1]):
-                    if getattr(a, "slow", False) and tier == "quick" and (b > 2 or (mode == "rows" and b > 1)):
+                    if slow and tier == "quick" and (b > 2 or (mode == "rows" and b > 1)):
+                        continue
+                    if n == 4 and (heavy or mode == "idx" or b == 3):
+                        continue    # thorough: 4 samples for the cheaper adapters, candidates None / rows, b in {1, 2, 5}
+                    if tier != "quick" and slow and n == 3 and b == 3 and mode != "none":
                         continue
                     out.append(dict(strat=name, n=n, mode=mode, b=b))
         return out
@@ -48,7 +54,8 @@ def harnesses():
 HARNESSES = harnesses()
 BOUNDS = dict(quick="n = 3 samples (1 symbolic feature), every labeled/unlabeled pattern, candidate modes None / every index "
                     "subset / 2 feature rows, batch sizes 1, 2 and 4 (> #candidates), symbolic seed, model outputs symbolic",
-              thorough="n in {3,4}, batch sizes 1,2,3,n+1",
+              thorough="n = 3 with batch sizes 1,2,3,4; n = 4 (candidates None / feature rows, batch sizes 1,2,5) for the adapters "
+                       "whose paths do not explode (not Falcun, expected_average_precision, ProbCover, ContrastiveAL, vote committees, BALD, TypiClust)",
               outside="strategies not in the adapter list (named in DESIGN.md); n > 4; more than one feature")
 ASSUMPTIONS = [
     "classifiers / ensembles / clusterers are stubs: predict_proba is an uninterpreted function of the feature row on the "
